@@ -1,5 +1,5 @@
-From Chum Require Import Machine Sem.
+From Chum Require Import Machine Sem Inputs.
 Require Extraction.
 Require ExtrOcamlBasic.
 Extraction Language OCaml.
-Extraction "Model.ml" run_top go init_st sem_top sem no_quirks.
+Extraction "Model.ml" run_top go init_st sem_top sem no_quirks spn_plain spn_mapped.
